@@ -125,6 +125,11 @@ def make_world(env, rng, kind, lb_params=None, open_delay=None, get_servers_dela
       self.close_steps.append(w.step)
       self._state = CLOSED
       env.emit('chan.close', inc=self.inc)
+      if w.close_yields and w.dispatching is None and gevent.getcurrent() is not gevent.get_hub():
+        # a channel whose Close() does cooperative work (flushes, waits for a lock): whoever closes
+        # it is suspended and everything else that is runnable goes first
+        w.close_yielded += 1
+        gevent.sleep(0)
       if w.close_fails_inflight and self.inflight:
         # like the multiplexed transports: closing fails what is in flight, synchronously, from
         # inside Close() - the completions re-enter the balancer that is closing the channel
@@ -257,6 +262,8 @@ def make_world(env, rng, kind, lb_params=None, open_delay=None, get_servers_dela
   w.ss = Scripted()
   w.callback_errors = []
   w.close_fails_inflight = False
+  w.close_yields = False
+  w.close_yielded = 0
   w.closed_with_inflight = 0
 
   from scales.loadbalancer.heap import HeapBalancerSink
